@@ -95,6 +95,8 @@ pub struct ModelStats {
     pub dead_items: usize,
     pub files_contributing: usize,
     pub max_include_depth: usize,
+    pub generated_defs: usize,
+    pub generated_def_expansions: usize,
 }
 
 pub fn run_model(case: &Case, flags: Flags) -> ModelRun {
@@ -113,6 +115,8 @@ pub fn run_model(case: &Case, flags: Flags) -> ModelRun {
             dead_items: m.dead_items,
             files_contributing: m.files_contributing.len(),
             max_include_depth: m.max_include_depth,
+            generated_defs: m.generated_ids.len(),
+            generated_def_expansions: m.generated_def_expansions,
         },
         out: m.out,
         chunks: m.chunks,
